@@ -130,6 +130,16 @@ def apply_tamper(W, name, rng):
         po.named_pubs = {x.sec(): x.point for x in nms}
         tags = ["chg", "alt", "alt2", "alt3", "alt4"]
         outs[1] = {"spk": {"m": m, "keys": [[1, tags[k]] for k in range(n)]}, "named": [{"key": [1, tags[k]], "xfp": 1, "path": tags[k]} for k in range(n)]}
+    elif name == "two-from-one-cosigner":
+        # cosigner 1 holds two slots, the last cosigner none: the distinct cosigners still number n - 1 (>= m for m < n)
+        nms = [W["named"](roots[0], "%s/1/4" % base), W["named"](roots[0], "%s/1/5" % base)] + [W["named"](r, "%s/1/4" % base) for r in roots[1:n - 1]]
+        sc, spk = W["script_for"](nms, m)
+        set_script(po, sc)
+        po.tx_out.script_pubkey = spk
+        ps.tx_obj.tx_outs[1].script_pubkey = spk
+        po.named_pubs = {x.sec(): x.point for x in nms}
+        keys = [[1, "chg"], [1, "alt"]] + [[c, "chg"] for c in range(2, n)]
+        outs[1] = {"spk": {"m": m, "keys": keys}, "named": [{"key": k_, "xfp": k_[0], "path": k_[1]} for k_ in keys]}
     elif name == "wrong-path":
         sec0 = W["named"](roots[0], "%s/1/4" % base).sec()
         np_ = po.named_pubs[sec0]
@@ -184,6 +194,18 @@ def apply_tamper(W, name, rng):
         from buidl.psbt import serialize_binary_path
         pi.named_pubs[sec0].add_raw_path_data(pi.named_pubs[sec0].root_fingerprint + serialize_binary_path("%s/0/7" % base), network="testnet")
         ok_inputs = False
+    elif name == "input-derivation-path-of-another-input":
+        # a later input states, for one of its keys, the path that an earlier input legitimately used for the same cosigner
+        pi = ps.psbt_ins[1]
+        from buidl.psbt import serialize_binary_path
+        target = None
+        for sec_, np_ in sorted(pi.named_pubs.items()):
+            if np_.root_fingerprint == roots[0].fingerprint():
+                target = np_
+        if target is None:
+            return None
+        target.add_raw_path_data(roots[0].fingerprint() + serialize_binary_path("%s/0/0" % base), network="testnet")
+        ok_inputs = False
     elif name == "input-foreign-xfp":
         pi = ps.psbt_ins[0]
         sec0 = sorted(pi.named_pubs)[0]
@@ -209,7 +231,7 @@ def apply_tamper(W, name, rng):
     return outs, ok_inputs
 
 
-TAMPERS = ["none", "swap-spk", "swap-spk-p2pkh", "swap-spk-p2wpkh", "swap-spk-p2sh", "swap-spk-p2wsh", "swap-spk-p2tr", "second-change-first", "second-change-middle", "foreign-script", "foreign-script-named", "one-cosigner", "wrong-path", "foreign-xfp", "change-quorum", "second-change",
+TAMPERS = ["none", "two-from-one-cosigner", "input-derivation-path-of-another-input", "swap-spk", "swap-spk-p2pkh", "swap-spk-p2wpkh", "swap-spk-p2sh", "swap-spk-p2wsh", "swap-spk-p2tr", "second-change-first", "second-change-middle", "foreign-script", "foreign-script-named", "one-cosigner", "wrong-path", "foreign-xfp", "change-quorum", "second-change",
            "spend-as-change", "input-foreign-script", "input-wrong-derivation", "input-foreign-xfp", "input-altered-prev-tx", "input-quorum-mismatch"]
 
 
@@ -261,14 +283,18 @@ def run(ctx):
         for kind in ("p2sh", "p2wsh"):
             for (nn, mm) in ([(3, 2)] if q else [(2, 1), (2, 2), (3, 2), (4, 3)]):
                 def cfg(rh, dc):
-                    path = "%s/rev_%s_%d%d_%s%s.cfg" % (ctx.tmp, kind, nn, mm, rh, dc)
+                    path = "%s/rev_%s_%d%d_%s%s.cfg" % (ctx.tmp, kind, nn, mm, rh, dc.strip('"'))
                     with open(path, "w") as f:
                         f.write("SPECIFICATION Spec\nCONSTANTS\n  N = %d\n  M = %d\n  Kind = \"%s\"\n  CheckRedeemHash = %s\n  CheckDistinctCosigners = %s\nINVARIANT ChangeIsReal\nINVARIANT InconsistentRejected\nINVARIANT HonestSummarised\n" % (nn, mm, kind, rh, dc))
                     return path
-                r0 = ctx.mc("psbt/Review.tla", cfg("FALSE" if kind == "p2sh" else "TRUE", "FALSE"), workers=2)
+                r0 = ctx.mc("psbt/Review.tla", cfg("FALSE" if kind == "p2sh" else "TRUE", '"none"'), workers=2)
                 if not r0.invariant:
                     raise Exception("vacuity: the unrepaired change-detection policy was expected to violate ChangeIsReal")
-                ctx.mc_expect_ok("psbt/Review.tla", cfg("TRUE", "TRUE"), what="change detection vs RealChange", workers=2)
+                if nn >= 3 and mm < nn:
+                    r1 = ctx.mc("psbt/Review.tla", cfg("TRUE", '"quorum"'), workers=2)
+                    if not r1.invariant:
+                        raise Exception("vacuity: 'at least M distinct cosigners' was expected to violate ChangeIsReal (a cosigner holding two slots)")
+                ctx.mc_expect_ok("psbt/Review.tla", cfg("TRUE", '"all"'), what="change detection vs RealChange", workers=2)
         ctx.exhaustive.append("Review: every PSBT reachable by <= 2 tamperings of the 10-entry catalogue, P2SH and P2WSH; unrepaired policy refuted, repaired policy satisfies ChangeIsReal")
     if not ctx.want("cases"):
         return
@@ -279,6 +305,8 @@ def run(ctx):
             if tname in ("change-quorum", "input-quorum-mismatch") and m < 2:
                 continue
             if tname == "one-cosigner" and n < 2:
+                continue
+            if tname == "two-from-one-cosigner" and n < 3:
                 continue
             jobs.append((wi, kind, m, n, tname, ctx.seed))
     cases = []
